@@ -52,6 +52,10 @@ class Source:
 
     async def aclose(self):
         self.i = self.n
+        if self.close_error is not None:
+            raise self.close_error
+
+    close_error = None
 
 
 class Page:
@@ -87,6 +91,28 @@ class PageSource(Source):
         page = Page(rows)
         self.refs.append(weakref.ref(page))    # the pages are the items of the outer stream
         return page
+
+
+class Book:
+    """a re-iterable (not an iterator) owning its rows; every __aiter__ gives a fresh cursor that refers back to the book"""
+
+    def __init__(self, rows):
+        self.rows = rows
+
+    def __aiter__(self):
+        cur = Page(self.rows)
+        cur.book = self
+        return cur
+
+
+class BookSource(PageSource):
+    """outer stream of re-iterable books of 3 rows each: the iterators the tool obtains from them are its own"""
+
+    async def __anext__(self):
+        page = await PageSource.__anext__(self)
+        book = Book(page.rows)
+        self.refs.append(weakref.ref(book))
+        return book
 
 
 class LazyReiterable:
@@ -129,7 +155,7 @@ class NumSource(Source):
         return it
 
 
-SRC_CLASS = {"pages": PageSource, "reiter": LazyReiterable, "nums": NumSource}
+SRC_CLASS = {"pages": PageSource, "books": BookSource, "reiter": LazyReiterable, "nums": NumSource}
 
 
 def alive(refs):
@@ -164,6 +190,7 @@ TOOLS = {
     "merge3key": (lambda S: A.merge(S[0], S[1], S[2], key=lambda x: x.key), 3, 3),
     # inner iterables that own their rows: the chain may keep the current page only
     "chain_from_iterable_pages": (lambda S: A.chain.from_iterable(S[0]), 1, 4, "pages"),
+    "chain_from_iterable_books": (lambda S: A.chain.from_iterable(S[0]), 1, 5, "books"),
     # lazily producing synchronous re-iterables (not Iterator, not Sequence)
     "filter_reiter": (lambda S: A.filter(lambda x: x.key % 2, S[0]), 1, 0, "reiter"),
     "zip_reiter": (lambda S: A.zip(S[0], S[1]), 2, 0, "reiter"),
@@ -190,7 +217,7 @@ AGGS = {
     "nlargest4_reiter": (lambda S: A.nlargest(S[0], 4), 4, None, "reiter"),
     "min_reiter": (lambda S: A.min(S[0]), 1, None, "reiter"),
 }
-TEE_PATTERNS = ["lockstep", "lead5", "lag-then-catch-up", "close-started-child", "close-unstarted-child",
+TEE_PATTERNS = ["tee-closed-while-a-child-lags", "tee-closed-source-close-fails", "lockstep", "lead5", "lag-then-catch-up", "close-started-child", "close-unstarted-child",
                 "child-killed-by-athrow", "child-killed-by-source-error"]
 
 
@@ -356,6 +383,18 @@ def _run_tee(pattern, nchild, n, noclose=False):
         while step(0):
             for i in range(1, nchild - 1):
                 step(i)
+    elif pattern in ("tee-closed-while-a-child-lags", "tee-closed-source-close-fails"):
+        # the last child is handed out but never advanced (its backlog is the documented lead); closing the whole tee
+        # leaves no live child, so nothing of the stream may stay alive afterwards - also when closing the source fails
+        if pattern == "tee-closed-source-close-fails":
+            src.close_error = OSError("connection lost")
+        for _ in range(n - 10):
+            for i in range(nchild - 1):
+                step(i)
+        drive(t.aclose())
+        closed.update(range(nchild))
+        a = alive(refs)
+        worst_excess = max(worst_excess, a)
     elif pattern == "close-unstarted-child":
         drive(kids[nchild - 1].aclose())
         closed.add(nchild - 1)
